@@ -35,7 +35,8 @@ Definition strip (ws : list N) (l : bytes) : bytes :=
 (* u8: high << 4 | low   (the shift drops the bits that leave the byte) *)
 Definition hex_combine (high low : N) : N := N.lor ((high * 16) mod 256) low.
 
-(* itertools tuples(): pairs, a trailing single element is dropped *)
+(* itertools tuples(): pairs; a trailing single element stays in the buffer (into_buffer) and is
+   decoded as the high nibble of a last byte: `high << 4` *)
 Fixpoint hex_pairs (l : bytes) : res bytes :=
   match l with
   | high :: low :: t =>
@@ -47,7 +48,12 @@ Fixpoint hex_pairs (l : bytes) : res bytes :=
           end
       | _, _ => Err 1
       end
-  | _ => Ok []
+  | [high] =>
+      match decode_nibble high with
+      | Some hi => Ok [(hi * 16) mod 256]
+      | None => Err 1
+      end
+  | [] => Ok []
   end.
 
 (* enc.rs: decode_hex *)
@@ -171,7 +177,7 @@ Definition encode_85 (data : bytes) : bytes :=
 (* ------------------------------------------------------------------ *)
 (** * RunLength *)
 
-(* enc.rs: run_length_decode.  Slice indexing past the end panics. *)
+(* enc.rs: run_length_decode.  `d.get(start..end)` / `d.get(c + 1)` past the end are Err(EOF). *)
 Fixpoint rle_loop (fuel : nat) (d : bytes) : res bytes :=
   match fuel with
   | O => OutOfFuel
@@ -186,7 +192,7 @@ Fixpoint rle_loop (fuel : nat) (d : bytes) : res bytes :=
           | Ok r => Ok (firstn n t ++ r)
           | e => e
           end
-        else Panic 102                       (* d[start..end] out of range *)
+        else Err 9                           (* d.get(start..end) = None *)
       else if rle_rep_from <=? len then
         match t with
         | b :: t' =>
@@ -194,7 +200,7 @@ Fixpoint rle_loop (fuel : nat) (d : bytes) : res bytes :=
             | Ok r => Ok (repeatN b (N.to_nat (rle_rep_base - len)) ++ r)
             | e => e
             end
-        | [] => Panic 103                    (* d[c + 1] out of range *)
+        | [] => Err 9                        (* d.get(c + 1) = None *)
         end
       else Ok []                             (* EOD *)
     end
@@ -202,7 +208,7 @@ Fixpoint rle_loop (fuel : nat) (d : bytes) : res bytes :=
 Definition run_length_decode (d : bytes) : res bytes := rle_loop (S (length d)) d.
 
 (* ------------------------------------------------------------------ *)
-(** * PNG predictors *)
+(** * Predictors *)
 
 Inductive ptype := PNone | PSub | PUp | PAvg | PPaeth.
 
@@ -217,21 +223,24 @@ Definition ptype_of_tag (t : N) : option ptype :=
   | None => None
   end.
 
-(* enc.rs: filter_paeth (i16 arithmetic never overflows for byte inputs) *)
+(* i16 arithmetic as the machine does it when overflow checks are off: wrap to [-2^15, 2^15) *)
+Definition wrap16 (z : Z) : Z := ((z + 32768) mod 65536 - 32768)%Z.
+
+(* enc.rs: filter_paeth *)
 Definition filter_paeth (a b c : N) : N :=
   let ia := Z.of_N a in let ib := Z.of_N b in let ic := Z.of_N c in
-  let p := (ia + ib - ic)%Z in
-  let pa := Z.abs (p - ia) in let pb := Z.abs (p - ib) in let pc := Z.abs (p - ic) in
+  let p := wrap16 (wrap16 (ia + ib) - ic) in
+  let pa := Z.abs (wrap16 (p - ia)) in let pb := Z.abs (wrap16 (p - ib)) in let pc := Z.abs (wrap16 (p - ic)) in
   if ((pa <=? pb) && (pa <=? pc))%Z then a else if (pb <=? pc)%Z then b else c.
 
 Definition wadd (a b : N) : N := (a + b) mod 256.   (* u8::wrapping_add *)
 Definition wsub (a b : N) : N := (a + 256 - b) mod 256.   (* u8::wrapping_sub *)
 
 (* The row loop of unfilter.  [outrev] = bytes of this row already written,
-   most recent first; [prevrev_done] = the corresponding bytes of the previous
+   most recent first; [prevrev] = the corresponding bytes of the previous
    row, most recent first.  out[i-bpp] is the (bpp-1)-th element of outrev. *)
 Definition back {A} (d : A) (l : list A) (bpp : nat) : A := nth (bpp - 1)%nat l d.
-Definition have (l : bytes) (bpp : nat) : bool := Nat.leb bpp (length l).
+Definition have {A} (l : list A) (bpp : nat) : bool := Nat.leb bpp (length l).
 
 Definition predict (ft : ptype) (bpp : nat) (outrev prevrev : bytes) (up : N) : N :=
   match ft with
@@ -252,15 +261,16 @@ Fixpoint unfilter_go (ft : ptype) (bpp : nat) (outrev prevrev : bytes) (prev inp
   | _, _ => []
   end.
 
-(* enc.rs: unfilter — `if bpp > len { return }` leaves the zero-initialised row *)
-Definition unfilter (ft : ptype) (bpp : nat) (prev inp : bytes) : bytes :=
-  if Nat.ltb (length inp) bpp then repeatN 0 (length inp)
-  else unfilter_go ft bpp [] [] prev inp.
+(* enc.rs: unfilter — assert_eq!(len, prev.len()) (the out slice is cut to len by the caller);
+   `if bpp > len { return }` leaves the zero-initialised row *)
+Definition unfilter (ft : ptype) (bpp : nat) (prev inp : bytes) : res bytes :=
+  if negb (Nat.eqb (length prev) (length inp)) then Panic 106
+  else if Nat.ltb (length inp) bpp then Ok (repeatN 0 (length inp))
+  else Ok (unfilter_go ft bpp [] [] prev inp).
 
-(* enc.rs: flate_decode, the loop after inflation.
-   stride = columns * n_components; bpp argument passed is n_components.
-   Loop condition: in_off + stride < inp.len(). Trailing partial rows are dropped;
-   rows = len / (stride+1) zero-filled output. *)
+(* enc.rs: unpredict, the PNG loop.  Loop condition: in_off + stride < inp.len();
+   inp[in_off .. in_off + stride] panics when the slice is out of range; a trailing partial
+   row is dropped. *)
 Fixpoint unpredict_rows (fuel : nat) (stride bpp : nat) (prev : bytes) (inp : bytes) : res bytes :=
   match fuel with
   | O => OutOfFuel
@@ -271,10 +281,14 @@ Fixpoint unpredict_rows (fuel : nat) (stride bpp : nat) (prev : bytes) (inp : by
           match ptype_of_tag tag with
           | None => Err 3
           | Some ft =>
-              let row := unfilter ft bpp prev (firstn stride body) in
-              match unpredict_rows f stride bpp row (skipn stride body) with
-              | Ok r => Ok (row ++ r)
-              | e => e
+              if Nat.ltb (length body) stride then Panic 107 else
+              match unfilter ft bpp prev (firstn stride body) with
+              | Ok row =>
+                  match unpredict_rows f stride bpp row (skipn stride body) with
+                  | Ok r => Ok (row ++ r)
+                  | e => e
+                  end
+              | Err e => Err e | Panic s => Panic s | OutOfFuel => OutOfFuel
               end
           end
       | [] => Ok []
@@ -282,25 +296,110 @@ Fixpoint unpredict_rows (fuel : nat) (stride bpp : nat) (prev : bytes) (inp : by
     else Ok []
   end.
 
-(* Parameters are Rust i32 cast with `as usize` (two's complement to 64 bits). *)
-Definition as_usize (z : Z) : N := Z.to_N (z mod 18446744073709551616)%Z.
+(* enc.rs: struct LZWFlateParams (i32 fields) *)
+Record params := { p_predictor : Z; p_colors : Z; p_bpc : Z; p_columns : Z; p_early : Z }.
 
-(* flate_decode after inflation, for `predictor > png_threshold`.
-   The output buffer has rows*stride bytes: the rows written by the loop, the
-   rest zero.  Overflow in columns*n_components / stride+1 panics in debug. *)
-Definition unpredict (predictor colors columns : Z) (decoded : bytes) : res bytes :=
-  let p := as_usize predictor in
-  let nc := as_usize colors in
-  let cols := as_usize columns in
-  if 18446744073709551616 <=? cols * nc then Panic 104 else
-  let stride := cols * nc in
-  if p <=? png_threshold then Ok decoded else
-  if 18446744073709551616 <=? stride + 1 then Panic 105 else
-  let rows := lenN decoded / (stride + 1) in
-  let stride' := N.to_nat stride in
-  match unpredict_rows (S (length decoded)) stride' (N.to_nat nc) (repeatN 0 stride') decoded with
-  | Ok out =>
-      let want := N.to_nat (rows * stride) in
-      Ok (firstn want (out ++ repeatN 0 (want - length out)%nat))
-  | e => e
+Definition usize_lim : N := 18446744073709551616.
+Definition memZ (x : Z) (l : list Z) : bool := existsb (Z.eqb x) l.
+Definition ceil8 (n : N) : N := n / 8 + (if n mod 8 =? 0 then 0 else 1).
+
+(* enc.rs: predictor_geometry -> (bytes per row, bytes per pixel) *)
+Definition predictor_geometry (p : params) : res (N * N) :=
+  if ((p_colors p <? 1) || (p_columns p <? 1) || negb (memZ (p_bpc p) bpc_allowed))%Z then Err 7 else
+  let bits_per_pixel := Z.to_N (p_colors p) * Z.to_N (p_bpc p) in
+  if usize_lim <=? bits_per_pixel then Err 8 else
+  let bits_per_row := Z.to_N (p_columns p) * bits_per_pixel in
+  if usize_lim <=? bits_per_row then Err 8 else
+  Ok (ceil8 bits_per_row, ceil8 bits_per_pixel).
+
+(* enc.rs: unpack_samples *)
+Definition unpack_byte (bpc : N) (b : N) : list N :=
+  map (fun k => N.land (N.shiftr b (8 - bpc * (N.of_nat k + 1))) (2 ^ bpc - 1)) (seq 0 (N.to_nat (8 / bpc))).
+Fixpoint pairs16 (row : bytes) : list N :=          (* chunks_exact(2), u16::from_be_bytes *)
+  match row with
+  | a :: b :: t => (a * 256 + b) :: pairs16 t
+  | _ => []
   end.
+Definition unpack_samples (bpc : N) (row : bytes) : list N :=
+  if bpc =? 16 then pairs16 row else flat_map (unpack_byte bpc) row.
+
+(* enc.rs: pack_samples (zip: stops with the shorter side, the rest of the row keeps its bytes) *)
+Fixpoint pack16 (row : bytes) (samples : list N) : bytes :=
+  match row, samples with
+  | _ :: _ :: t, s :: ss => (s / 256) mod 256 :: s mod 256 :: pack16 t ss
+  | _, _ => row
+  end.
+Fixpoint pack_bytes (bpc : N) (per_byte : nat) (row : bytes) (samples : list N) : bytes :=
+  match row with
+  | [] => []
+  | b :: t =>
+      match samples with
+      | [] => row
+      | _ => (fold_left (fun acc s => N.lor (N.shiftl acc bpc) s) (firstn per_byte samples) 0) mod 256
+             :: pack_bytes bpc per_byte t (skipn per_byte samples)
+      end
+  end.
+Definition pack_samples (bpc : N) (samples : list N) (row : bytes) : bytes :=
+  if bpc =? 16 then pack16 row samples else pack_bytes bpc (N.to_nat (8 / bpc)) row samples.
+
+(* enc.rs: tiff_unpredict_row, the loop `for i in colors .. n_samples`; [n] = n_samples - i,
+   [outrev] = samples already final, most recent first.  samples[i] past the end panics. *)
+Fixpoint tiff_go (colors : nat) (mask : N) (n : nat) (outrev : list N) (s : list N) : res (list N) :=
+  match n with
+  | O => Ok s
+  | S n' =>
+      match s with
+      | [] => Panic 108
+      | x :: t =>
+          let o := if have outrev colors
+                   then N.land ((x + back 0 outrev colors) mod 65536) mask   (* u16 wrapping_add, & mask *)
+                   else x in
+          match tiff_go colors mask n' (o :: outrev) t with
+          | Ok r => Ok (o :: r)
+          | e => e
+          end
+      end
+  end.
+Definition tiff_unpredict_row (colors : nat) (bpc : N) (n_samples : nat) (row : bytes) : res bytes :=
+  match tiff_go colors (2 ^ bpc - 1) n_samples [] (unpack_samples bpc row) with
+  | Ok s => Ok (pack_samples bpc s row)
+  | Err e => Err e | Panic s => Panic s | OutOfFuel => OutOfFuel
+  end.
+
+(* chunks_exact_mut(stride): whole rows; the remainder is left as it is *)
+Fixpoint tiff_rows (fuel : nat) (stride colors : nat) (bpc : N) (n_samples : nat) (d : bytes) : res bytes :=
+  match fuel with
+  | O => OutOfFuel
+  | S f =>
+    if Nat.leb stride (length d) then
+      match tiff_unpredict_row colors bpc n_samples (firstn stride d) with
+      | Ok row =>
+          match tiff_rows f stride colors bpc n_samples (skipn stride d) with
+          | Ok r => Ok (row ++ r)
+          | e => e
+          end
+      | e => e
+      end
+    else Ok d
+  end.
+
+(* enc.rs: unpredict *)
+Definition unpredict (p : params) (decoded : bytes) : res bytes :=
+  if (png_from <=? p_predictor p)%Z then
+    match predictor_geometry p with
+    | Ok (stride, bpp) =>
+        if lenN decoded / (stride + 1) =? 0 then Ok [] else
+        unpredict_rows (S (length decoded)) (N.to_nat stride) (N.to_nat bpp)
+                       (repeatN 0 (N.to_nat stride)) decoded
+    | Err e => Err e | Panic s => Panic s | OutOfFuel => OutOfFuel
+    end
+  else if (p_predictor p =? tiff_pred)%Z then
+    match predictor_geometry p with
+    | Ok (stride, _) =>
+        if stride =? 0 then Panic 109 else        (* chunks_exact_mut(0) *)
+        if lenN decoded <? stride then Ok decoded else   (* no whole row (keeps the model's nat small) *)
+        tiff_rows (S (length decoded)) (N.to_nat stride) (Z.to_nat (p_colors p)) (Z.to_N (p_bpc p))
+                  (Z.to_nat (p_colors p) * Z.to_nat (p_columns p)) decoded
+    | Err e => Err e | Panic s => Panic s | OutOfFuel => OutOfFuel
+    end
+  else Ok decoded.
